@@ -5,11 +5,13 @@ translator (which raises Unsupported for what it does not know).
 
 What it adds (all of it is only active for specs that name this plug-in):
 
- * an ABSTRACT numeric domain: results are of a Section type `T` with operations
-   tzero/tadd/tsub (no literals other than 0), coordinates are of a Section type `X` and are only
-   ever compared with 0 (`a < 0 < b`, `a < 0 <= b` -> xlt0/xgt0/xge0) or passed on;
- * Python tuples of coordinates  -> Coq `list X`;  `a1, a2 = a` -> `match a with [a1; a2] => .. | _ => tzero end`
-   (Python raises on a length mismatch; the model returns tzero; every theorem carries the shape hypotheses);
+ * an ABSTRACT numeric domain: results are of the carrier of a Section variable `N : Num`
+   (Base/ExtNum.v) with the operations named in spec["absdom"] (zero/add/sub; no literals other
+   than 0), coordinates are extended numbers `ext N` and are only ever compared with 0
+   (`a < 0 < b` -> xlt0/xgt0, `a < 0 <= b` -> xlt0/xge0: the GLOBAL definitions of Base/ExtNum.v, so
+   that a change of the comparison in the source changes the generated term) or passed on;
+ * Python tuples of coordinates  -> Coq `list X`;  `a1, a2 = a` -> `match a with [a1; a2] => .. | _ => 0 end`
+   (Python raises on a length mismatch; the model returns 0; every theorem carries the shape hypotheses);
  * index lists `indices` (default None)  -> `idx` = option (list nat):  `is None`, `is not None`,
    `len(indices) == k`, `len(indices) < k`, `indices[0]`, list displays `[i1, i2]` -> `Some [i1; i2]`;
  * `u = partial(f, x)`  -> `let u := f x in`  and later calls `u(arg)`;
@@ -37,13 +39,16 @@ class Ext:
         self.coords = set(fn.get("coords", []))      # scalar coordinate names (compared with 0 only)
         self.kwparams = dict(spec.get("kwparams", {}))
         self.local_funs = set()
-        ctx.d = dict(add="tadd", sub="tsub", neg="tneg", ty="T")   # abstract domain: nothing else exists
+        ad = spec.get("absdom", {})
+        self.zero = ad.get("zero", "tzero")
+        self.xdflt = ad.get("xdflt", "xdflt")
+        ctx.d = dict(add=ad.get("add", "tadd"), sub=ad.get("sub", "tsub"), neg=ad.get("neg", "tneg"), ty="T")   # nothing else exists
 
     # ------------------------------------------------------------------ expressions
     def expr(self, ctx, e):
         if isinstance(e, ast.Constant):
             if isinstance(e.value, int) and not isinstance(e.value, bool) and e.value == 0:
-                return "tzero"
+                return self.zero
             raise Unsupported(f"literal {e.value!r} in the abstract domain")
         if isinstance(e, ast.Tuple):
             return "[" + "; ".join(self.coord(ctx, x) for x in e.elts) + "]"
@@ -53,7 +58,7 @@ class Ext:
             if isinstance(e.value, ast.Name) and isinstance(e.slice, ast.Constant) and isinstance(e.slice.value, int) \
                     and e.slice.value >= 0:
                 if e.value.id in self.xlists:
-                    return f"(nth {e.slice.value} {e.value.id} xdflt)"
+                    return f"(nth {e.slice.value} {e.value.id} {self.xdflt})"
                 if e.value.id in self.ilists:
                     return f"(inth {e.slice.value} {e.value.id})"
             raise Unsupported(f"subscript {src(e)}")
@@ -142,9 +147,9 @@ class Ext:
                 names = "; ".join(x.id for x in t.elts)
                 if v.id in self.xlists:
                     self.coords.update(x.id for x in t.elts)
-                    return f"match {v.id} with\n  | [{names}] =>\n  {core.block(ctx, rest, tail, on_raise)}\n  | _ => tzero end"
+                    return f"match {v.id} with\n  | [{names}] =>\n  {core.block(ctx, rest, tail, on_raise)}\n  | _ => {self.zero} end"
                 if v.id in self.ilists:
-                    return f"match {v.id} with\n  | Some [{names}] =>\n  {core.block(ctx, rest, tail, on_raise)}\n  | _ => tzero end"
+                    return f"match {v.id} with\n  | Some [{names}] =>\n  {core.block(ctx, rest, tail, on_raise)}\n  | _ => {self.zero} end"
                 raise Unsupported(f"tuple assignment from {v.id}")
         if isinstance(s, ast.If):
             body_ret = always_returns(s.body)
